@@ -616,3 +616,23 @@ package cbor
 //@   flag tags binary_log
 //@   ensures prefix(res, dst) && res[len(dst)] == 0xd9 && res[len(dst) + 1] == 0x01 && res[len(dst) + 2] == 0x05 && res[len(dst) + 3] == 0xa1 && mt(res, len(dst) + 4) == 2
 //@   ensures! emitsvalue(res, dst)
+
+// ---------------------------------------------------------------------------
+// decode_stream.go: helper contracts for the safety sweep (C17). The sweep
+// itself needs no annotation; these give callers the two facts they rely on
+// (a read returns exactly the bytes asked for; positions stay inside the
+// string) and the loop invariants of the escaper.
+
+//@ func readNBytes(src, n) res
+//@   props C17 C08
+//@   arith bv
+//@   flag tags binary_log
+//@   ensures len(res) == n
+
+//@ func decodeStringComplex(dst, s, pos) res
+//@   props C17 C08
+//@   arith bv
+//@   flag tags binary_log
+//@   requires int(pos) >= 0 && int(pos) <= len(s)
+//@   loop 1:
+//@     invariant 0 <= start && start <= i && i <= len(s)
